@@ -219,3 +219,51 @@ pub fn run_all(sh: &mut Shard, f: &mut dyn FnMut(&mut Shard, &str, &str) -> Resu
     }
     sh.exhaustive("all pairwise nestings of 14 enclosing constructs x 14 x 12 inner statement groups");
 }
+
+/// Dense position grids: the same kind of construct at many (row, column) positions of one program
+/// (1-3 digit rows, 1-2 digit columns, several per row), each construct printing one token.
+/// Whatever the generated labels are derived from, two constructs must never share them.
+pub const GRID_KINDS: [&str; 6] = ["if-line", "while", "for", "do", "select", "if-block"];
+
+pub fn grid_program(kind: usize, variant: usize) -> (String, String) {
+    let mut lines: Vec<String> = vec![];
+    let mut expected = String::new();
+    let mut tok = 0usize;
+    let rows = 124;
+    for r in 1..=rows {
+        let indent = (r * (3 + variant)) % 12;
+        let mut line = " ".repeat(indent);
+        let per_row = 1 + (r + variant) % 3;
+        for j in 0..per_row {
+            tok += 1;
+            if j > 0 {
+                line.push_str(": ");
+            }
+            // every construct runs its body exactly once
+            let piece = match GRID_KINDS[kind] {
+                "if-line" => format!("IF -1 THEN PRINT \"t{}\"", tok),
+                "while" => format!("ZW = 0: WHILE ZW < 1: ZW = ZW + 1: PRINT \"t{}\": WEND", tok),
+                "for" => format!("FOR ZF = 1 TO 1: PRINT \"t{}\": NEXT", tok),
+                "do" => format!("DO: PRINT \"t{}\": LOOP UNTIL -1", tok),
+                "select" => format!("SELECT CASE 1: CASE 1: PRINT \"t{}\": END SELECT", tok),
+                _ => format!("IF -1 THEN: PRINT \"t{}\": END IF", tok),
+            };
+            // a single-line IF swallows the rest of the line: one per row, at varying columns
+            if GRID_KINDS[kind] == "if-line" {
+                if j == 0 {
+                    let pad = (r * 5 + variant) % 23;
+                    line.push_str(&format!("ZP = {}: ", "1".repeat(1 + pad % 9)));
+                    line.push_str(&piece);
+                    expected.push_str(&format!("t{}\r\n", tok));
+                }
+                break;
+            }
+            line.push_str(&piece);
+            expected.push_str(&format!("t{}\r\n", tok));
+        }
+        lines.push(line);
+    }
+    let mut text = lines.join("\n");
+    text.push('\n');
+    (text, expected)
+}
